@@ -627,6 +627,18 @@ def _categorical(prog, fn):
                    'inputs)' % [norm_text(a) for a in w.args[1:3]])
   items.append(('default-bucket', 'default_input_value -> last bucket',
                 probs))
+  # the category id is the input itself: the conversion to an integer index
+  # casts `inputs`, with no arithmetic on it (tf.cast truncates toward zero,
+  # so `inputs + 0.5` turns the category -1 into 0)
+  pc = []
+  for c in ast.walk(fn.node):
+    if _ext(prog, fn, c) == 'tf.cast' and c.args and 'inputs' in names_read(
+        c.args[0]) and dotted(c.args[0]) != 'inputs':
+      pc.append('the category index is tf.cast(%s, ...): arithmetic on the '
+                'category id before the truncating cast' % norm_text(
+                    c.args[0])[:40])
+  items.append(('index-cast', 'the integer index is the cast input itself',
+                pc))
   p2 = []
   oh = [c for c in ast.walk(fn.node) if _ext(prog, fn, c) == 'tf.one_hot']
   if len(oh) != 2:
